@@ -27,14 +27,17 @@ FOREIGN = ["mnp_unrelated", "complex", "symbolic", "star", "long_del_ins"]
 ODDGT = ["./.", ".", "1", "0/1/1", "./1"]
 
 
-def vcf_records(sim, gene, m, style):
-    """Standard left-anchored VCF records for a loaded variant m=(pos, op) -> list of (pos0, ref, alt)."""
+def vcf_records(sim, gene, m, style, pad=0):
+    """Left-anchored VCF records for a loaded variant m=(pos, op) -> list of (pos0, ref, alt); pad = extra shared bases in front of
+    the anchor base of an insertion / deletion record (as in records merged from several alleles)."""
     pos, op = m
     G = sim.genome
     if op.startswith("ins"):
-        return [(pos, G[pos], G[pos] + op[3:])]
+        pad = min(pad, max(0, pos - 1))
+        return [(pos - pad, G[pos - pad:pos + 1], G[pos - pad:pos + 1] + op[3:])]
     if op.startswith("del"):
-        return [(pos - 1, G[pos - 1] + op[3:], G[pos - 1])]
+        pad = min(pad, max(0, pos - 2))
+        return [(pos - 1 - pad, G[pos - 1 - pad:pos] + op[3:], G[pos - 1 - pad:pos])]
     l, r = op.split(">")
     if len(l) == 1:
         return [(pos, l, r)]
@@ -99,6 +102,12 @@ def run_case(case):
     sim = simreads.Sim(gene, seed=case["sim_seed"])
     dflt = natsorted(mn for a in gene.alleles.values() if a.cn_config == "1" for mn in a.minors)
     picks = [dflt[i % len(dflt)] for i in case["alleles"]]
+    if case.get("twinpick"):
+        # directed: two alleles that carry DIFFERENT substitutions at one position (a multi-allelic site), if the database has such
+        subs = {nm: {m[0]: m[1] for m in simreads.allele_copy(gene, nm)[1] if ">" in m[1]} for nm in dflt[:60]}
+        pairs = [(a, b) for a in subs for b in subs if a < b and any(p_ in subs[b] and subs[b][p_] != o_ for p_, o_ in subs[a].items())]
+        if pairs:
+            picks = list(pairs[case["alleles"][0] % len(pairs)])
     vars_ = []
     for nm in picks:
         _, ms, maj = simreads.allele_copy(gene, nm)
@@ -139,7 +148,9 @@ def run_case(case):
         kind = "ins" if op.startswith("ins") else "del" if op.startswith("del") else "mnp" if len(op) > 3 else "snp"
         kinds.add(kind)
         gt = (f"0{sep}1" if not case["flip"] else f"1{sep}0") if c == 1 else f"1{sep}1"
-        rr = vcf_records(sim, gene, m, style)
+        rr = vcf_records(sim, gene, m, style, case.get("pad", 0))
+        if case.get("pad") and kind in ("ins", "del"):
+            labels.append("padded-indel-record")
         mismatch = case["refmismatch"] and kind == "snp"
         for (p0, ref, alt) in rr:
             if mismatch:
@@ -155,6 +166,29 @@ def run_case(case):
             refdrop[pos] += c
         elif kind == "mnp":
             refdrop[pos] += c
+    if case.get("merge"):
+        # records of the target's variants that start at one position become ONE multi-allelic record (REF = the longest one,
+        # the other alternatives extended by its tail); the target is 1/2 there
+        byp = collections.defaultdict(list)
+        for r_ in recs:
+            byp[r_[0]].append(r_)
+        merged = []
+        for p0, lst in sorted(byp.items()):
+            het = [f"0{sep}1", f"1{sep}0"]
+            if len(lst) == 2 and all(len(r_[2]) == 1 and r_[3][idx] in het for r_ in lst) and lst[0][1][0] == lst[1][1][0]:
+                R = max((r_[1] for r_ in lst), key=len)
+                if all(R.startswith(r_[1]) for r_ in lst):
+                    alts = [r_[2][0] + R[len(r_[1]):] for r_ in lst]
+                    if len(set(alts)) == 2 and R not in alts:
+                        g_ = [(f"1{sep}2" if not case["flip"] else f"2{sep}1") if i == idx else ["0/0", "1/2", "0/1", "2/2", "./."][(p0 + i) % 5]
+                              for i in range(nsamp)]
+                        merged.append((p0, R, alts, g_))
+                        labels.append("multi-allelic-record")
+                        continue
+            merged += lst
+        recs = merged
+    if len({m_[0] for m_ in expected}) < len(expected):
+        labels.append("two-variants-at-one-position")
     labels += [f"var:{k}" for k in kinds]
     if style == "mnp_one" and "mnp" in kinds:
         labels.append("mnp-one-record")
@@ -292,7 +326,7 @@ def strategy(tier):
             d["gene"] = st.sampled_from(SHIPPED[:8] if tier == "quick" else SHIPPED)
             d["alleles"] = st.lists(st.integers(0, 2000), min_size=1, max_size=2)
         else:
-            d["db"] = gen_db.db_specs(sv=False, pseudo=False, kinds=["snp", "snp", "mnp", "ins", "del"], gaps=True)
+            d["db"] = gen_db.db_specs(sv=False, pseudo=False, kinds=["snp", "snp", "mnp", "ins", "del"], gaps=True, twins=True)
         return st.fixed_dictionaries(d)
 
     base = {
@@ -304,6 +338,9 @@ def strategy(tier):
         "flip": st.booleans(),
         "mnp_style": st.sampled_from(["mnp_one", "adjacent"]),
         "refmismatch": st.sampled_from([False, False, True]),
+        "pad": st.sampled_from([0, 0, 1, 3]),
+        "merge": st.booleans(),
+        "twinpick": st.booleans(),
         "extras": st.lists(extra, max_size=3),
         "anchor": st.integers(0, 300),
         "sim_seed": st.integers(0, 10 ** 6),
